@@ -33,7 +33,20 @@ def _alarm(*_):
 # guard: negative / out-of-range scalar indexing and input mutation (interpreted mode only)
 # ---------------------------------------------------------------------------------------------
 VIOL = []
-_LITERAL_NEG = re.compile(r"\[[^\]]*-\s*\d")
+_LIT = re.compile(r"\[\s*-?\s*\d+\s*(?:,\s*-?\s*\d+\s*)*\]")
+
+
+def _literal_neg(line, v):
+    """the negative index v is written as a LITERAL in the source line (`path[-1]`, `struct[0, -1]`, `q[0][-2]`).  The
+    earlier pattern (any `- <digit>` inside brackets) also accepted computed indices such as `elevtn[imin - 1]` or
+    `data[idx_ds - 1]` and so masked a wrapped read (found by a mutant of the C13_bounds2 builder)."""
+    for m in _LIT.finditer(line):
+        try:
+            if v in [int(t.replace(" ", "")) for t in m.group(0)[1:-1].split(",")]:
+                return True
+        except ValueError:
+            pass
+    return False
 
 
 def _check_index(arr, idx, kind):
@@ -47,7 +60,7 @@ def _check_index(arr, idx, kind):
                 if "pyflwdir" not in fn:
                     return
                 line = linecache.getline(fn, ln)
-                if _LITERAL_NEG.search(line):   # literal negative index such as path[-1]
+                if _literal_neg(line, v):   # literal negative index such as path[-1]
                     return
                 VIOL.append(f"negative index {v} ({kind}) at {os.path.basename(fn)}:{ln}: {line.strip()[:80]}")
 
